@@ -86,7 +86,9 @@ SPEC = dict(
         "tryboot that cannot start falls back to a normal boot); piboot.go's translation of the variables into config.txt / "
         "tryboot.txt is not examined; the in-repo parts (envRef kernel state, updateNotScriptableBootloaderStatus, initramfs "
         "selection) are modelled and tied",
-        "EXCLUDED event classes: snapd restart without reboot between two writes; I/O error returned in mid-operation; "
+        "EXCLUDED event classes: a snapd restart inside a kernel setNext that was started while kernel_status was still trying "
+        "(snapd marks the boot successful first after every start), and for the code as it is a restart in the finding window; "
+        "every other snapd restart without reboot between two writes IS an event (ERestart); I/O error returned in mid-operation; "
         "UC20 scriptable bootloaders without kernel links (u-boot with gadget boot.scr): same write lists as the not scriptable "
         "configuration, firmware script not in the repository and not modelled",
         "power loss = reboot: a snapd process restart without reboot between two writes is not an event of the model",
